@@ -84,9 +84,11 @@ structure PkgInfo where
   deriving Repr
 
 inductive BuildErr where
-  | caseConflict (names : List String)          -- "Build targets must be case insensitive, thus the following targets conflict"
-  | multipleDefs (target : String) (ids : List String)
-  | aliasDup (alias : String) (ids : List String)
+  | caseConflict (groups : List (List String))   -- "Build targets must be case insensitive, thus the following targets conflict": the names of each group
+  | multipleDefs (all : List (String × List String))   -- every ambiguous name with the sorted IDs of its definitions
+  | aliasDup (alias : String) (ids : List String) (determinate : Bool)
+      -- the message names one colliding alias and the definitions it runs into; which one, when several aliases collide
+      -- or two aliases collide with each other, depends on Go's map iteration order (`determinate = false`)
   | importNotFound (path : String)
   deriving DecidableEq, Repr
 
@@ -132,24 +134,33 @@ def hasDup : List String → Bool
 /-- parse.Package -/
 def package (p : Pkg) : Except BuildErr (List Function) :=
   let fs := collectFuncs p
-  if hasDup (fs.map dupeKey) then .error (.caseConflict (fs.map (·.name))) else .ok fs
+  if hasDup (fs.map dupeKey) then
+    .error (.caseConflict (((fs.map dupeKey).eraseDups.map fun k => (fs.filter fun f => dupeKey f == k).map (·.name)).filter (·.length > 1)))
+  else .ok fs
 
 /-- runnable-name collisions: parse.checkDupes. `aliases` are the declared alias keys (empty on the first call). -/
 def checkDupes (own : List Function) (imports : List Import) (aliases : List (String × Function)) : Except BuildErr Unit :=
   let targets := own ++ imports.flatMap (·.funcs)
   let names := targets.map fun f => lower f.targetName
   -- alias against targets (and against earlier aliases)
+  let idsOf : String → List String := fun n => (targets.filter fun f => lower f.targetName == n).map (·.id)
   let rec goAlias (seen : List String) (as : List (String × Function)) : Except BuildErr (List String) :=
     match as with
     | [] => .ok seen
     | (a, _) :: rest =>
-      if seen.contains (lower a) then .error (.aliasDup (lower a) []) else goAlias (lower a :: seen) rest
+      if seen.contains (lower a) then .error (.aliasDup (lower a) [] false) else goAlias (lower a :: seen) rest
   match goAlias names aliases with
-  | .error e => .error e
+  | .error e =>
+    -- the report: the alias, the definitions it runs into; determinate iff it is the only colliding alias
+    let keys := aliases.map fun x => lower x.1
+    let colliding := keys.filter fun k => names.contains k || (keys.filter (· == k)).length > 1
+    .error (match e with
+      | .aliasDup a _ _ => .aliasDup a (idsOf a) (colliding.length == 1)
+      | e => e)
   | .ok _ =>
     if hasDup names then
-      let n := (names.find? (fun n => (names.filter (· == n)).length > 1)).getD ""
-      .error (.multipleDefs n (sortBy id ((targets.filter fun f => lower f.targetName == n).map (·.id))))
+      let dups := (names.eraseDups.filter fun n => (names.filter (· == n)).length > 1)
+      .error (.multipleDefs ((sortBy id dups).map fun n => (n, sortBy id (idsOf n))))
     else .ok ()
 
 def dedupAdjacent : List String → List String
